@@ -63,21 +63,23 @@ impl<'tcx> Cx<'tcx> {
         )
     }
     fn name(&self, did: DefId) -> String {
-        ty::print::with_no_trimmed_paths!(ty::print::with_resolve_crate_name!(
-            self.tcx.def_path_str(did)
+        ty::print::with_no_visible_paths!(ty::print::with_no_trimmed_paths!(
+            ty::print::with_resolve_crate_name!(self.tcx.def_path_str(did))
         ))
     }
     fn name_args(&self, did: DefId, args: ty::GenericArgsRef<'tcx>) -> String {
         trunc(
-            ty::print::with_no_trimmed_paths!(ty::print::with_resolve_crate_name!(
-                self.tcx.def_path_str_with_args(did, args)
+            ty::print::with_no_visible_paths!(ty::print::with_no_trimmed_paths!(
+                ty::print::with_resolve_crate_name!(self.tcx.def_path_str_with_args(did, args))
             )),
-            400,
+            700,
         )
     }
     fn ty_str(&self, t: Ty<'tcx>) -> String {
         trunc(
-            ty::print::with_no_trimmed_paths!(ty::print::with_resolve_crate_name!(format!("{}", t))),
+            ty::print::with_no_visible_paths!(ty::print::with_no_trimmed_paths!(
+                ty::print::with_resolve_crate_name!(format!("{}", t))
+            )),
             300,
         )
     }
@@ -403,7 +405,32 @@ impl<'tcx> Cx<'tcx> {
                 }
             }
         }
-        out.push_str("},\"bbs\":[");
+        out.push_str("},\"promoted\":[");
+        for (pi, pb) in tcx.promoted_mir(did).iter().enumerate() {
+            if pi > 0 {
+                out.push(',');
+            }
+            out.push('[');
+            let mut first = true;
+            for bb in pb.basic_blocks.iter() {
+                for st in &bb.statements {
+                    if let StatementKind::Assign(b) = &st.kind {
+                        let (p, rv) = &**b;
+                        if !first {
+                            out.push(',');
+                        }
+                        first = false;
+                        out.push_str("{\"d\":");
+                        self.place(pb, p, out);
+                        out.push_str(",\"r\":");
+                        self.rvalue(pb, rv, out);
+                        out.push('}');
+                    }
+                }
+            }
+            out.push(']');
+        }
+        out.push_str("],\"bbs\":[");
         for (bi, bb) in body.basic_blocks.iter().enumerate() {
             if bi > 0 {
                 out.push(',');
